@@ -117,6 +117,8 @@ class Result:
         self.exhaustive = True
         self.spaces = collections.OrderedDict()
         self._space = None
+        self.matcher = None       # violation -> id of the known finding it matches (or None)
+        self.known_counts = collections.Counter()
 
     # -- worker side -------------------------------------------------------
     def begin(self, space):
@@ -167,6 +169,11 @@ class Result:
             # keep the smallest witnesses per class
             item = {'space': self._space, 'input': inp, 'cls': v.cls,
                     'expected': v.expected, 'observed': v.observed}
+            # known findings are recognised before any trimming so that a new violation of the same
+            # class can never be crowded out by recorded ones
+            item['known'] = self.matcher(item) if self.matcher else None
+            if item['known']:
+                self.known_counts[item['known']] += 1
             self.violations.append(item)
             if len(self.violations) > 4 * self.MAX_VIOL:
                 self._trim()
@@ -174,7 +181,7 @@ class Result:
     def _trim(self):
         by = collections.defaultdict(list)
         for it in self.violations:
-            by[it['cls']].append(it)
+            by[(it.get('known'), it['cls'])].append(it)
         out = []
         per = max(2, self.MAX_VIOL // max(1, len(by)))
         for cls, its in by.items():
@@ -192,6 +199,7 @@ class Result:
         self.nviol += o.nviol
         self.violations.extend(o.violations)
         self.viol_classes.update(o.viol_classes)
+        self.known_counts.update(o.known_counts)
         if len(self.outcomes) < self.MAX_OUTCOMES:
             self.outcomes |= o.outcomes
         for s in o.samples:
@@ -207,11 +215,13 @@ class Result:
 
 
 _MOD = None
+_MATCHER = None
 
 
 def _worker(args):
     idx, task = args
     R = Result()
+    R.matcher = _MATCHER
     t0 = time.time()
     try:
         from . import repo
@@ -221,13 +231,15 @@ def _worker(args):
     except Exception:
         return idx, None, traceback.format_exc(), time.time() - t0
     R._trim()
+    R.matcher = None        # not picklable, only needed on the worker side
     return idx, R, None, time.time() - t0
 
 
-def run_tasks(mod, tasks, jobs, budget=None):
+def run_tasks(mod, tasks, jobs, budget=None, matcher=None):
     """Run all tasks on a fork pool; returns merged Result, list of errors."""
-    global _MOD
+    global _MOD, _MATCHER
     _MOD = mod
+    _MATCHER = matcher
     total = Result()
     errors = []
     t0 = time.time()
